@@ -56,7 +56,7 @@ def run_repro(scn):
     d2, s2, out2, rec2 = run_digest(scn, {"uuid_seed": scn["u2"], "container_offset": scn.get("off2", 7000)}, internal)
     res = {"violation": None, "discard": None, "faults": {"uuid_stream_changed": 1, "container_numbers_shifted": 1,
                                                            "preceding_simulations": scn.get("fillers", 1)},
-           "probes": dict(out["probes"]), "ticks": out["ticks"] * 2, "nontrivial": True, "sig": d1, "digest": d1,
+           "probes": dict(out["probes"]), "ticks": out["ticks"] * 2, "sim_s": out["sim_s"] * 2, "nontrivial": True, "sig": d1, "digest": d1,
            "stats": s1}
     if d1 != d2:
         res["violation"] = Violation("C07.log_differs", {"algo": scn["cfg"]["algo"], "first_difference": first_difference(rec1, rec2)}).to_json()
@@ -76,7 +76,7 @@ def run_indep(scn):
     _, _, outa, ra = run_digest(a, {"uuid_seed": 1, "container_offset": 1}, True)
     _, _, outb, rb = run_digest(b, {"uuid_seed": 2, "container_offset": 50}, True)
     res = {"violation": None, "discard": None, "faults": {"executor_settings_changed": 1}, "probes": {},
-           "ticks": outa["ticks"] + outb["ticks"], "nontrivial": True, "sig": digest(arrivals_of(ra))}
+           "ticks": outa["ticks"] + outb["ticks"], "sim_s": outa["sim_s"] + outb["sim_s"], "nontrivial": True, "sig": digest(arrivals_of(ra))}
     na = min(len(ra.emitted), len(rb.emitted))
     xa, xb = arrivals_of(ra)[:na], arrivals_of(rb)[:na]
     if json.dumps(xa, default=str) != json.dumps(xb, default=str):
